@@ -17,6 +17,20 @@ def is_wait_map(f, x):
     return False
 
 
+def peel_newtype(f, ty, depth=0):
+    """The type inside private single-field structs of the crate (`struct IdAllocator(AtomicU64)`): such a wrapper only
+    adds methods (ordinary crate-private helpers, inlined where they are used); what kind of state it is is decided by
+    the field."""
+    while depth < 4 and ty.k == "adt" and ty.defn in f.adts:
+        a = f.adts[ty.defn]
+        vs = a.get("variants") or []
+        if a.get("kind") != "Struct" or len(vs) != 1 or len(vs[0]["fields"]) != 1:
+            break
+        ty = f.ty(vs[0]["fields"][0]["ty"])
+        depth += 1
+    return ty
+
+
 def _mentions_wait_map(f, tyid):
     t = f.ty(tyid)
     for x in t.walk():
